@@ -290,7 +290,10 @@ func paramProjects(c *core.Ctx) []*gen.Project {
 				}
 				for _, cg := range []int{0, 100, 300, 600} {
 					idx++
-					if !c.Quick() || (idx+off)%3 == 0 {
+					// the corners of the texture domain (nearly pure silt / sand / clay) are where a transfer function leaves its
+					// fitted range: always part of the sample, with and without organic carbon
+					corner := (silt >= 85 || sand >= 85 || clay >= 85) && (cg == 0 || cg == 600)
+					if !c.Quick() || (idx+off)%3 == 0 || corner {
 						p := base(fmt.Sprintf("pp%d", idx))
 						p.Cfg.PTF = ptf
 						// pore volume not below the field capacity the function yields (an invalid input otherwise)
